@@ -31,6 +31,11 @@ ASSUMPTIONS = [
 
 
 MUTANTS = [
+    ("shared loader opens files unscaled", "AegeanTools/fits_tools.py",
+     "        hdulist = fits.open(filename, ignore_missing_end=True)",
+     "        hdulist = fits.open(filename, ignore_missing_end=True,\n"
+     "                            memmap=True, do_not_scale_image_data=True)",
+     "C15-R7"),
     ("expanded file written before the keywords are removed",
      "AegeanTools/fits_tools.py",
      "    # don't need these any more so delete them.\n"
@@ -478,6 +483,9 @@ def run(ctx):
               "(transparent expansion) and compare the shape of its result",
               node=aux.node)
     r6_written(ctx, prog)
+    # compress / expand work on physical values (shared with C20-R6)
+    from .c20 import r6_bscale
+    r6_bscale(ctx, prog, rule="C15-R7")
 
 
 def r6_written(ctx, prog):
